@@ -11,7 +11,9 @@ import (
 	"fmt"
 	"reflect"
 	"strings"
+	"sync"
 	"testing"
+	"time"
 
 	"github.com/semihalev/twig"
 	"pgregory.net/rapid"
@@ -66,6 +68,17 @@ type c20Shadow struct {
 	A string // shadows c20MV.A
 }
 
+type c20Addr struct {
+	City string
+	Zip  int
+}
+
+// embedded pointer: promoted fields exist only when the pointer is set
+type c20Person struct {
+	*c20Addr
+	Name string
+}
+
 func c20Fixed(t int) interface{} {
 	mv := c20MV{A: 11, Lbl: "mv", hid: "secret"}
 	switch t {
@@ -85,11 +98,15 @@ func c20Fixed(t int) interface{} {
 		return map[string]int{"A": 5, "C": 6, "name": 7}
 	case -8:
 		return map[string]interface{}{"inner": map[string]string{"name": "deep"}, "st": c20Emb{mv, "nested"}}
+	case -9:
+		return c20Person{nil, "nobody"} // nil embedded pointer: City / Zip are absent
+	case -10:
+		return c20Person{&c20Addr{"Oslo", 150}, "someone"}
 	}
 	panic("fixed type")
 }
 
-var c20FixedAttrs = []string{"A", "B", "C", "Lbl", "Get", "PGet", "Twice", "hid", "name", "sub", "sub.z", "inner.name", "st.B", "st.A", "st.Get", "nope", "c20MV", "c20Emb"}
+var c20FixedAttrs = []string{"City", "Zip", "Name", "A", "B", "C", "Lbl", "Get", "PGet", "Twice", "hid", "name", "sub", "sub.z", "inner.name", "st.B", "st.A", "st.Get", "nope", "c20MV", "c20Emb"}
 
 // ---- generated types ---------------------------------------------------------------------------
 
@@ -232,7 +249,7 @@ func c20Query(v interface{}, attr string, idx bool) Res {
 			expr += "['" + p + "']"
 		}
 	}
-	return guard(func() (string, error) {
+	return guardT(20*time.Second, func() (string, error) {
 		t, err := c20Engine.ParseTemplate("{{ " + expr + " }}")
 		if err != nil {
 			return "", err
@@ -243,7 +260,22 @@ func c20Query(v interface{}, attr string, idx bool) Res {
 
 var c20FloodSerial int
 
-func c20Flood(kind string, n int) {
+// c20Flood performs n lookups of fresh (type, name) pairs; it reports a hang.
+func c20Flood(kind string, n int) error {
+	done := make(chan struct{})
+	go func() {
+		c20FloodRun(kind, n)
+		close(done)
+	}()
+	select {
+	case <-done:
+		return nil
+	case <-time.After(60 * time.Second):
+		return fmt.Errorf("a flood of %d attribute lookups of fresh (type, name) pairs does not terminate (60 s): attribute access hangs", n)
+	}
+}
+
+func c20FloodRun(kind string, n int) {
 	for i := 0; i < n; i++ {
 		c20FloodSerial++
 		if kind == "types" {
@@ -264,7 +296,9 @@ func checkC20(c C20Case) error {
 	first := map[string]string{}
 	for si, st := range c.Steps {
 		if st.Op == "flood" {
-			c20Flood(st.Kind, st.N)
+			if err := c20Flood(st.Kind, st.N); err != nil {
+				return fmt.Errorf("step %d: %v", si, err)
+			}
 			continue
 		}
 		v := c20Value(c, st.T, st.Ptr)
@@ -376,7 +410,7 @@ func genC20(t *rapid.T) (C20Case, map[string]bool) {
 		}
 		s := C20Step{Op: "query", Ptr: rapid.Bool().Draw(t, "ptr")}
 		if rapid.IntRange(0, 2).Draw(t, "fixed") == 0 {
-			s.T = -rapid.IntRange(1, 8).Draw(t, "fixedt")
+			s.T = -rapid.IntRange(1, 10).Draw(t, "fixedt")
 			s.Attr = rapid.SampledFrom(c20FixedAttrs).Draw(t, "fattr")
 			s.Idx = rapid.IntRange(0, 3).Draw(t, "idx") == 0
 			st["method-family-or-maps"] = true
@@ -445,7 +479,7 @@ func TestC20Family(t *testing.T) {
 	defer r.Flush()
 	r.SetExhaustive()
 	var steps []C20Step
-	for t := -1; t >= -8; t-- {
+	for t := -1; t >= -10; t-- {
 		for _, a := range c20FixedAttrs {
 			for _, p := range []bool{false, true} {
 				for _, idx := range []bool{false, true} {
@@ -468,4 +502,79 @@ func TestC20Family(t *testing.T) {
 	}
 }
 
-func init() { reg("C20.attr", checkC20) }
+// ---- concurrent lookups across cache eviction -----------------------------------------------------
+
+type C20ConcCase struct {
+	Goroutines int `json:"goroutines"`
+	Pairs      int `json:"pairs"`   // distinct (type, name) pairs in play (> 1000 forces eviction)
+	Lookups    int `json:"lookups"` // per goroutine
+	Seed       int `json:"seed"`
+}
+
+func checkC20Conc(c C20ConcCase) error {
+	// pairs: StructOf types with one int field each plus the shared field "A"
+	type pair struct {
+		v    interface{}
+		want string
+	}
+	pairs := make([]pair, c.Pairs)
+	for i := range pairs {
+		c20FloodSerial++
+		typ := reflect.StructOf([]reflect.StructField{{Name: fmt.Sprintf("G%d", c20FloodSerial), Type: reflect.TypeOf(0)}, {Name: "A", Type: reflect.TypeOf("")}})
+		v := reflect.New(typ).Elem()
+		v.Field(1).SetString(fmt.Sprintf("val%d", i))
+		pairs[i] = pair{v.Interface(), fmt.Sprintf("val%d", i)}
+	}
+	tmpl, err := c20Engine.ParseTemplate("{{ x.A }}")
+	if err != nil {
+		return err
+	}
+	var wg sync.WaitGroup
+	errs := make(chan error, c.Goroutines)
+	for g := 0; g < c.Goroutines; g++ {
+		wg.Add(1)
+		go func(g int) {
+			defer wg.Done()
+			state := uint64(c.Seed*7919 + g*104729 + 1)
+			for i := 0; i < c.Lookups; i++ {
+				state = state*6364136223846793005 + 1442695040888963407
+				p := pairs[int(state>>33)%len(pairs)]
+				out, err := tmpl.Render(map[string]interface{}{"x": p.v})
+				if err != nil || out != p.want {
+					errs <- fmt.Errorf("concurrent lookup %d of goroutine %d: x.A = %q (err %v), direct reflection gives %q (%d pairs in play, %d goroutines)", i, g, out, err, p.want, c.Pairs, c.Goroutines)
+					return
+				}
+			}
+		}(g)
+	}
+	done := make(chan struct{})
+	go func() { wg.Wait(); close(done) }()
+	select {
+	case <-done:
+	case <-time.After(120 * time.Second):
+		return fmt.Errorf("concurrent attribute lookups do not terminate (120 s)")
+	}
+	close(errs)
+	for err := range errs {
+		return err
+	}
+	return nil
+}
+
+func TestC20Concurrent(t *testing.T) {
+	r := NewRec(t, "C20", "8 goroutines x 20000 (thorough 60000) pseudo-random lookups of x.A over 300 / 1100 / 1500 distinct struct types, so that entries are evicted while other goroutines use them; every answer compared with the known field value; non-trivial = more pairs than the cache holds")
+	defer r.Flush()
+	for i, pairs := range []int{300, 1100, 1500} {
+		c := C20ConcCase{Goroutines: 8, Pairs: pairs, Lookups: scale(20000, 60000), Seed: i + 1}
+		r.Case(fmt.Sprint(c), pairs > 1000, c)
+		r.Case(fmt.Sprint(c, "b"), pairs > 1000, c)
+		if err := checkC20Conc(c); err != nil {
+			r.FailEnum(t, "C20.conc", c, err)
+		}
+	}
+}
+
+func init() {
+	reg("C20.attr", checkC20)
+	reg("C20.conc", checkC20Conc)
+}
